@@ -67,6 +67,16 @@ def direct():
             with time_limit(4):
                 for i, op in enumerate(case['ops']):
                     apply_op(m, op)
+                    if case.get('peek') and i % 2 == 0:
+                        try:
+                            m.get_data()     # looking at the description while the model is assembled must not fix it
+                        except Exception:
+                            pass
+                if case.get('peek'):
+                    try:
+                        m.get_data()
+                    except Exception:
+                        pass
                 m.finish()
         except Exception as e:
             out['err'] = type(e).__name__
